@@ -469,8 +469,6 @@ where
     {
         #[cfg(mini_moka_verif)]
         crate::verif::sp("inv.begin");
-        #[cfg(mini_moka_verif)]
-        crate::verif::block_until("inv.shard", &|| self.base.inner.verif_shard_free(key));
         if let Some(kv) = self.base.remove_entry(key) {
             #[cfg(mini_moka_verif)]
             crate::verif::sp("inv.mapped");
